@@ -11,10 +11,6 @@ namespace Infretis.Template
 def AllWS (w : Str) : Prop := ∀ c ∈ w, isSpace c = true
 def NoWS (t : Str) : Prop := ∀ c ∈ t, isSpace c = false
 
-def body : List (Str × Str) → Str
-  | [] => []
-  | tw :: r => tw.1 ++ (tw.2 ++ body r)
-
 /-- separators are white space and non-empty, except possibly the last one -/
 def SepOK : List (Str × Str) → Prop
   | [] => True
@@ -283,17 +279,7 @@ theorem splitWS_token {t : Str} (h : NoWS t) (hne : t ≠ []) : splitWS t = [t] 
 
 /-! ### every line has such a decomposition -/
 
-def decompGo : Nat → Str → List (Str × Str)
-  | 0, _ => []
-  | fuel + 1, s =>
-    if s.isEmpty then []
-    else
-      let r := s.dropWhile (fun c => !isSpace c)
-      (s.takeWhile (fun c => !isSpace c), r.takeWhile isSpace) :: decompGo fuel (r.dropWhile isSpace)
-
-/-- leading white space and the (token, following white space) pairs of a line -/
-def decomp (l : Str) : Str × List (Str × Str) :=
-  (l.takeWhile isSpace, decompGo l.length (l.dropWhile isSpace))
+-- (`body`, `decompGo`, `decomp` live in `Model/Template.lean`: the word-by-word specification `wordsLine` uses them)
 
 theorem mem_takeWhile_true {p : Char → Bool} : ∀ {l : Str} {x : Char}, x ∈ l.takeWhile p → p x = true := by
   intro l
